@@ -14,6 +14,7 @@ from ..monitor import Patch, call_real, reach
 
 ID = 'C08'
 LEVEL = 'exploration'
+DEBUG_TOGGLE = True  # runner flips the library debug flag every 97 monitored executions
 TECHNIQUE = 'runtime monitoring: hook on every built-in transition function comparing the post-call pose with a table-driven reference kinematics; exhaustive small-grid product each run; history invariant on shipped configs'
 LEVEL_TEXT = ('Each call of move_agent/turn_agent (alone, inside random chains, and inside every environment built after the '
               'hooks are installed) is compared with an independent reference (heading tables, target inside grid and not '
@@ -159,6 +160,8 @@ def anchored():
 
 
 def run(ctx):
+    from .. import custom_objects
+    custom_objects.enable(cleats=True)  # user-defined object types join the generators' pool (flags, not types, must decide)
     sink = dynmon.Sink(ctx, ASPECTS)
 
     def on_call(call):
@@ -184,6 +187,8 @@ def run(ctx):
 
 
 def replay(ctx, kind, payload):
+    from .. import custom_objects
+    custom_objects.enable(cleats=True)
     if kind == 'fn_case':
         dynmon.replay_call(ctx, payload, ASPECTS)
     elif kind == 'turn_seq':
